@@ -638,7 +638,7 @@ def impl_scenario(a):
         return ids
 
     first = steps[0]
-    if first["op"] == "clone":
+    if first["op"] in ("clone", "clone_nc"):
         src = os.path.join(base, "src")
         os.makedirs(src)
         sr = Repo.init(src)
@@ -650,14 +650,14 @@ def impl_scenario(a):
         before = _snap(base)
         out = "ok"
         try:
-            r = porcelain.clone(src, wt, checkout=True, errstream=io.BytesIO())
+            r = porcelain.clone(src, wt, checkout=(first["op"] == "clone"), errstream=io.BytesIO())
         except Exception as e:
             out = type(e).__name__
         after = _snap(base)
         # ignore the freshly created control directory in this one diff
         diff = [d for d in _snap_diff(before, after) if not d[0].startswith("outer/wt/.git") and d[0] != "outer/wt"]
         listing = _wt_listing(wt) if os.path.isdir(wt) else []
-        res.append({"op": "clone", "out": out, "diff": diff, "wt": listing, "links": [], "old_index": [], "old_head": []})
+        res.append({"op": first["op"], "out": out, "diff": diff, "wt": listing, "links": [], "old_index": [], "old_head": []})
         if r is None:
             if os.path.exists(wt):
                 shutil.rmtree(wt)
@@ -1016,6 +1016,10 @@ def classify(step: dict, sr: dict, base: str):
     removed = [d for d in diff if d[2] is None]
     changed = [d for d in diff if d[2] is not None]
     links = {bytes.fromhex(p): bytes.fromhex(t) for p, t in sr["links"]}
+    # ... or created by this very step before the delete ran (ADD d -> X precedes DELETE d/x in the change list)
+    for relhex, typ, _mode, extra in sr["wt"]:
+        if typ == "link":
+            links.setdefault(bytes.fromhex(relhex), bytes.fromhex(extra))
     op = sr["op"]
     if op in ("reset_hard", "checkout") and removed and not changed:
         old = [bytes.fromhex(p) for p in (sr["old_index"] if op == "reset_hard" else sr["old_head"])]
@@ -1054,7 +1058,10 @@ def judge(ctx, stream: str, case: dict, res, base: str):
             ctx.oracle_fail(stream, {**case, "failing_step": i, "diff": sr["diff"][:6], "outcome": sr["out"]},
                             f"step {i} ({sr['op']}) created/changed/deleted outside the work tree or inside .git: "
                             f"{sr['diff'][:3]}", cls)
+        prev = {x[0]: (x[1], x[2]) for x in res[i - 1]["wt"]} if i > 0 else {}
         for relhex, typ, mode, extra in sr["wt"]:
+            if prev.get(relhex) == (typ, mode):
+                continue      # left by an earlier step (reported there): each step answers for what IT materialised
             rel = bytes.fromhex(relhex)
             if typ in ("file", "dir") and mode & 0o7002:
                 ctx.oracle_fail(stream, {**case, "failing_step": i, "path": relhex, "mode": oct(mode)},
@@ -1064,9 +1071,16 @@ def judge(ctx, stream: str, case: dict, res, base: str):
                 if dotgit_like(comp, v):
                     if comp == b".git" and typ == "file" and bytes.fromhex(extra) == b"gitdir: " and b"/" in rel:
                         continue   # submodule placeholder written by dulwich itself below a gitlink path
+                    cls = None
+                    if sr["op"] in ("patch", "patch_to"):
+                        # same defect as the known patch finding when the name was created by writing THROUGH a
+                        # symlink that sat at the patch target (final component) before the step
+                        links = {bytes.fromhex(p): bytes.fromhex(t) for p, t in sr["links"]}
+                        if any(_resolve_rel(l, links, base) == b"outer/wt/" + rel for l in links):
+                            cls = "patch-write-through-final-symlink"
                     ctx.oracle_fail(stream, {**case, "failing_step": i, "path": relhex},
                                     f"step {i} ({sr['op']}) materialised the unsafe name {comp!r} at {rel!r} "
-                                    f"(protections {v})", None)
+                                    f"(protections {v})", cls)
                     break
 
 
@@ -1113,7 +1127,7 @@ def _patch_mod(path: bytes, old: bytes, new: bytes) -> bytes:
     return (b"diff --git a/" + path + b" b/" + path + b"\n--- a/" + path + b"\n+++ b/" + path + b"\n@@ -1 +1 @@\n-" + old + b"+" + new)
 
 
-FIRST_OPS = ["clone", "reset_hard", "checkout", "checkout_force", "build_index", "stash_pop"]
+FIRST_OPS = ["clone", "reset_hard", "checkout", "checkout_force", "build_index", "stash_pop", "clone_nc"]
 NEXT_OPS = ["reset_hard", "checkout", "checkout_force", "build_index", "stash_pop", "reset_mixed", "reset_soft", "patch_to"]
 
 
@@ -1150,6 +1164,10 @@ def fixed_scenarios():
             [("reset_hard", 0), ("reset_mixed", 1), ("reset_hard", 3)], [("reset_hard", 0), ("reset_soft", 1), ("checkout_force", 3)],
             [("reset_hard", 0), ("reset_soft", 1), ("checkout", 3)],
             [("reset_hard", 0), ("stash_pop", 3, 1), ("reset_hard", 3)], [("reset_hard", 0), ("stash_pop", 3, 1), ("reset_hard", 2)],
+            # HEAD lists d/x, the work tree was never populated (clone --no-checkout), the next tree has d as a symlink:
+            # ADD d precedes DELETE d/x in the change list
+            [("clone_nc", 1), ("checkout_force", 0)], [("clone_nc", 1), ("checkout", 0)], [("clone_nc", 1), ("reset_hard", 0)],
+            [("reset_hard", 3), ("reset_soft", 1), ("checkout_force", 0)], [("reset_hard", 3), ("reset_mixed", 1), ("reset_hard", 0)],
             # aborted update (later invalid entry) then another
             [("reset_hard", 1), ("reset_hard", 4), ("reset_hard", 3)], [("checkout", 1), ("checkout_force", 4), ("checkout_force", 3)],
             # symlink then regular file of the same name (the file must replace the link, not be written through it)
@@ -1179,7 +1197,7 @@ def fixed_scenarios():
                       [E_blob(b"keep"), E_link(U, b"../outside_dir")]]
             for si, spec in enumerate(shapes):
                 op = FIRST_OPS[(ui + si + ci) % len(FIRST_OPS)]
-                if op == "clone" and cfg:
+                if op in ("clone", "clone_nc") and cfg:
                     op = "reset_hard"
                 steps = [_step(op, 0)]
                 if (ui + si) % 3 == 0:
@@ -1188,7 +1206,7 @@ def fixed_scenarios():
         for ri, R in enumerate(RAW_NAMES):
             spec = [E_blob(b"keep"), E_tree(b"d", [E_blob(b"ok")]), E_blob(R, b"raw name\n")]
             out.append((f"raw:{effective_v(cfg)}", {"trees": [spec, mk_tree([KEEP])],
-                                                   "steps": [_step(FIRST_OPS[(ri + ci) % len(FIRST_OPS)] if not (cfg and (ri + ci) % len(FIRST_OPS) == 0) else "reset_hard", 0),
+                                                   "steps": [_step(FIRST_OPS[(ri + ci) % len(FIRST_OPS)] if not (cfg and FIRST_OPS[(ri + ci) % len(FIRST_OPS)].startswith("clone")) else "reset_hard", 0),
                                                              _step("reset_hard", 1)], "cfg": cfg}))
             out.append((f"rawpatch:{effective_v(cfg)}", {"trees": [mk_tree([KEEP])],
                                                         "steps": [_step("reset_hard", 0), {"op": "patch", "patch": _patch_new(R).hex()},
@@ -1246,7 +1264,7 @@ def random_scenario(rng):
     if rng.random() < 0.15:
         steps.append({"op": "patch", "patch": _patch_new(rng.choice([b"d", b"e", b"lnk", b"d/x", b"lnk/pwn", b"d/sub/pwn"])).hex()})
     cfg = rng.choice([{}, {}, {}, {"protectNTFS": False}, {"protectHFS": True}, {"symlinks": True, "filemode": False}])
-    if steps[0]["op"] == "clone":
+    if steps[0]["op"] in ("clone", "clone_nc"):
         cfg = {}
     return {"trees": trees, "steps": steps, "cfg": cfg}
 
